@@ -170,6 +170,12 @@ def check_verdict(run, src, opts, out, kind, extra=None):
         return
     r = out["result"]
     if out["wall"] > LIMIT_S:
+        # wall-clock time under machine load says little: the same call is repeated alone
+        again = run_probes([(src, opts)], workers=1)[0]
+        if not again.get("hang") and "wall" in again and again["wall"] <= LIMIT_S:
+            run.count("slow_only_under_load")
+            out = dict(out, wall=again["wall"])
+    if out["wall"] > LIMIT_S:
         run.violation(f"compile_code took {out['wall']:.1f} s", dict(rec, failure="slow", wall=out["wall"]))
     if out.get("children_alive"):
         run.violation("a helper process was still running after compile_code returned",
